@@ -93,6 +93,38 @@ pub fn scenarios(tier: Tier) -> Vec<Scenario> {
         });
     }
     let bounds: Vec<(i64, i64)> = if tier == Tier::Quick { vec![(1, 1), (0, 2)] } else { vec![(0, 0), (1, 1), (0, 2), (2, 0), (2, 1)] };
+    // whole jobs: both inputs derived from a 2-replica source, every shipping x local algorithm x
+    // variant (and the one-call forms), on one host and on two
+    {
+        use crate::program::Instr::*;
+        use crate::props::common::{program_scenario, JobCfg, SrcKind};
+        let mut variants: Vec<(u8, u8, u8)> = vec![];
+        for kind in 0..3u8 {
+            for (ship, local) in [(0u8, 0u8), (0, 1), (1, 0), (1, 1), (2, 0)] {
+                if ship == 1 && kind == 2 {
+                    continue;
+                }
+                variants.push((kind, ship, local));
+            }
+        }
+        let cfgs = [
+            (JobCfg { layout: Layout::Local(2), batch: BatchMode::fixed(1), capacity: 0 }, if tier == Tier::Quick { 1 } else { 2 }),
+            (JobCfg { layout: Layout::Remote(vec![1, 1]), batch: BatchMode::fixed(2), capacity: 0 }, if tier == Tier::Quick { 0 } else { 1 }),
+        ];
+        for (cfg, bound) in &cfgs {
+            for (k, sh, lo) in &variants {
+                for (prog, input) in [
+                    (vec![Dup, Map, Join(*k, *sh, *lo)], vec![1i64, 2, 3, 4, 6]),
+                    (vec![Dup, Filter, Swap, Shuffle, Join(*k, *sh, *lo)], vec![1, 2, 3, 4, 6]),
+                ] {
+                    if crate::program::well_formed(&prog, crate::program::Rep::Unl).is_none() {
+                        continue;
+                    }
+                    out.push(program_scenario("C08/job", &prog, &input, SrcKind::Par(vec![0, 1, 0, 1, 1]), cfg, *bound, &ORDERS3[..1], "c08-job-".to_string()));
+                }
+            }
+        }
+    }
     for (lo, up) in bounds {
         for l in &lists {
             for r in &lists {
